@@ -72,6 +72,9 @@ func runSCTP(id int, c *sctpCase, mode string, dp *dict.Parser) sctpLine {
 		total += len(sz)
 	}
 	got := make(chan struct{}, 1024)
+	var pend *diam.Message // deferred mode: the request not yet answered
+	var pendRC uint32
+	var pendConn diam.Conn
 	rev := map[uint16]int{}
 	for s := range c.Sizes {
 		rev[wireStream(s+1)] = s + 1
@@ -109,9 +112,21 @@ func runSCTP(id int, c *sctpCase, mode string, dp *dict.Parser) sctpLine {
 		if k%2 == 0 {
 			rc = 0
 		}
-		m.Answer(rc).WriteTo(dc)
+		if mode == "deferred" {
+			// the application answers a request only when the next one has arrived (possibly on another
+			// stream), with retries, and the first attempt of every write hits a temporary error
+			if pend != nil {
+				pend.Answer(pendRC).WriteToWithRetry(dc, 2)
+			}
+			pend, pendRC, pendConn = m, rc, dc
+		} else {
+			m.Answer(rc).WriteTo(dc)
+		}
 		got <- struct{}{}
 	})
+	if mode == "deferred" {
+		as.FailWrite = func(k int) bool { return k%2 == 1 }
+	}
 	stop := make(chan struct{})
 	go func() {
 		for {
@@ -161,6 +176,9 @@ func runSCTP(id int, c *sctpCase, mode string, dp *dict.Parser) sctpLine {
 		}
 	}
 	as.WaitReaderBlocked(time.Second)
+	if pend != nil && !as.Closed() {
+		pend.Answer(pendRC).WriteToWithRetry(pendConn, 2)
+	}
 	mu.Lock()
 	for _, o := range as.Out() {
 		msgs, _ := splitMsgs(o.Data)
@@ -255,9 +273,11 @@ func SCTP(a Args) error {
 			defer func() { <-sem }()
 			l1 := runSCTP(id, c, "burst", vp)
 			l2 := runSCTP(id, c, "step", vp)
+			l3 := runSCTP(id, c, "deferred", vp)
 			emu.Lock()
 			out.Emit(l1)
 			out.Emit(l2)
+			out.Emit(l3)
 			emu.Unlock()
 		}(id, &cases[i])
 	}
@@ -309,6 +329,60 @@ func SCTPAnswer(a Args) error {
 				as.WaitReaderBlocked(time.Second)
 				id++
 				l := ansLine{Ev: "answer", ID: id, Via: "sctp", Req: ansHdr{Flags: 0xC0, Cmd: abs.B3(abs.VCmd), App: abs.B4(abs.VApp), HbH: abs.B4(h), E2E: abs.B4(e)}, RC: int(e % 2 * 2001), Stream: int(stream),
+					Ans: ansObs{Hdr: ansHdr{Cmd: []int{0, 0, 0}, App: []int{0, 0, 0, 0}, HbH: []int{0, 0, 0, 0}, E2E: []int{0, 0, 0, 0}}, First: ansFirst{Sem: []int{}}, Stream: -1}}
+				if o := as.Out(); len(o) > nout {
+					msgs, _ := splitMsgs(o[nout].Data)
+					if len(msgs) == 1 {
+						m := msgs[0]
+						l.Ans.Hdr = ansHdr{Flags: int(m.Flags), Cmd: abs.B3(m.Cmd), App: abs.B4(m.App), HbH: abs.B4(m.HbH), E2E: abs.B4(m.E2E)}
+						l.Ans.NAVPs = len(m.AVPs)
+						if len(m.AVPs) > 0 && len(m.AVPs[0].Payload) == 4 {
+							l.Ans.First = ansFirst{Code: int(m.AVPs[0].Code), Flags: int(m.AVPs[0].Flags), Sem: abs.Limbs32(be32(m.AVPs[0].Payload))}
+						}
+						l.Ans.Stream = int(o[nout].Stream)
+					}
+				}
+				out.Emit(l)
+			}
+		}
+		as.Close()
+	}
+	// deferred answers: the request arrives on stream s; it is answered - with retries, the first write
+	// attempt failing temporarily - only after a message on another stream has been read
+	for _, stream := range []uint16{0, 1, 7, 15} {
+		as := sctpmem.New()
+		as.FailWrite = func(k int) bool { return k%2 == 1 }
+		mux := diam.NewServeMux()
+		done := make(chan struct{}, 16)
+		var pend *diam.Message
+		mux.HandleFunc("ALL", func(dc diam.Conn, m *diam.Message) {
+			if m.Header.CommandFlags&0x10 != 0 { // the trigger, on another stream
+				if pend != nil {
+					pend.Answer(uint32(pend.Header.EndToEndID % 2 * 2001)).WriteToWithRetry(dc, 2)
+					pend = nil
+				}
+				done <- struct{}{}
+				return
+			}
+			pend = m
+		})
+		conn := diam.NewSCTPConnVerif(as)
+		diam.NewConn(conn, "10.0.0.2:3868", mux, vp)
+		for _, h := range ids {
+			for _, e := range ids {
+				nout := len(as.Out())
+				hd := diam.Header{Version: 1, MessageLength: 20, CommandFlags: 0xC0, CommandCode: abs.VCmd, ApplicationID: abs.VApp, HopByHopID: h, EndToEndID: e}
+				as.Feed(stream, hd.Serialize())
+				as.WaitReaderBlocked(time.Second)
+				tr := diam.Header{Version: 1, MessageLength: 20, CommandFlags: 0x90, CommandCode: abs.VCmd, ApplicationID: abs.VApp, HopByHopID: 77, EndToEndID: 77}
+				as.Feed((stream+5)%16, tr.Serialize())
+				select {
+				case <-done:
+				case <-time.After(3 * time.Second):
+				}
+				as.WaitReaderBlocked(time.Second)
+				id++
+				l := ansLine{Ev: "answer", ID: id, Via: "sctp-deferred", Req: ansHdr{Flags: 0xC0, Cmd: abs.B3(abs.VCmd), App: abs.B4(abs.VApp), HbH: abs.B4(h), E2E: abs.B4(e)}, RC: int(e % 2 * 2001), Stream: int(stream),
 					Ans: ansObs{Hdr: ansHdr{Cmd: []int{0, 0, 0}, App: []int{0, 0, 0, 0}, HbH: []int{0, 0, 0, 0}, E2E: []int{0, 0, 0, 0}}, First: ansFirst{Sem: []int{}}, Stream: -1}}
 				if o := as.Out(); len(o) > nout {
 					msgs, _ := splitMsgs(o[nout].Data)
